@@ -38,8 +38,8 @@ type gateFS struct {
 
 	mu        sync.Mutex
 	armed     bool
-	walSyncs  int                        // WAL syncs seen since arm()
-	walCreate int                        // WAL files created since arm() (memtable rotation detector)
+	walSyncs  int                       // WAL syncs seen since arm()
+	walCreate int                       // WAL files created since arm() (memtable rotation detector)
 	hook      func(ord int, after bool) // called around every WAL sync while armed
 }
 
